@@ -18,8 +18,7 @@ import json, os, re, shutil, time
 SECONDS = dict(quick=35, thorough=600)
 
 FINDING_CODES = {
-    20: "racy:Hub.connections",
-    21: "racy:ShipConnection.smeError",
+    # 20 racy:Hub.connections and 21 racy:ShipConnection.smeError: repaired in /repo, numbers not reused
     22: "racy:ShipConnection.lastReceivedWaitingValue",
     23: "racy:MdnsManager.autoaccept",
     24: "racy:MdnsManager.mdnsProvider",
@@ -52,15 +51,22 @@ Definition dump1 (s : fspec) : string :=
 Set Printing Width 1000000.
 Set Printing Depth 1000000.
 Eval vm_compute in join ";" (map dump1 guard_spec).
+From ShipGen Require Import Access.
+Eval vm_compute in join ";" (map (fun f => f_struct f ++ "." ++ f_field f ++ "@" ++ f_fn f)
+  (filter (fun f => existsb (fun c => N.leb c 10) (check_fact guard_spec f)) access_facts)).
 '''
     p = os.path.join(wd, "specdump.v")
     open(p, "w").write(src)
     rc, out, _ = sh(["coqc"] + q + [p], cwd=coq, timeout=300)
     if rc != 0:
         return None, "coqc specdump failed: " + out[-1500:]
-    m = re.search(r'=\s*"(.*)"\s*:\s*string', out, re.S)
-    if not m:
+    ms = re.findall(r'=\s*"(.*?)"\s*:\s*string', out, re.S)
+    if len(ms) != 2:
         return None, "cannot parse spec dump: " + out[-500:]
+    m = re.match(r"(.*)", ms[0], re.S)
+    # facts that violate the table (code 1 or 10), as "Struct.field@function": a race report on
+    # such an access is the schedule for the broken obligation, not a broken correspondence
+    unprot = {x for x in re.sub(r"\s*\n\s*", "", ms[1]).split(";") if x}
     spec = {}
     for ent in re.sub(r"\s*\n\s*", "", m.group(1)).split(";"):
         name, g, init, exc = ent.split("|")
@@ -84,30 +90,10 @@ Eval vm_compute in c20_stale_codes.
             summary = dict(fields_in_table=int(nums.group(1)), fields_unconditionally_protected=int(nums.group(2)),
                            facts=int(nums.group(3)), facts_clean=int(nums.group(4)),
                            stale_finding_codes=[int(x) for x in re.findall(r"\d+", stale.group(1))] if stale else [])
-    # facts that violate the table (code 10), as "Struct.field@function": a race report on such
-    # an access is the schedule for the broken obligation, not a broken correspondence
-    unprot = set()
-    src3 = r'''From Ship Require Import Base Lockset LocksetSpec.
-From ShipGen Require Import Access.
-Open Scope string_scope.
-Definition join (sep : string) (l : list string) : string :=
-  fold_right (fun a b => if String.eqb b "" then a else a ++ sep ++ b) "" l.
-Set Printing Width 1000000.
-Set Printing Depth 1000000.
-Eval vm_compute in join ";" (map (fun f => f_struct f ++ "." ++ f_field f ++ "@" ++ f_fn f)
-  (filter (fun f => existsb (fun c => N.leb c 10) (check_fact guard_spec f)) access_facts)).
-'''
-    p3 = os.path.join(wd, "unprot.v")
-    open(p3, "w").write(src3)
-    rc, out, _ = sh(["coqc"] + q + [p3], cwd=coq, timeout=300)
-    if rc == 0:
-        m3 = re.search(r'=\s*"(.*)"\s*:\s*string', out, re.S)
-        if m3:
-            unprot = {x for x in re.sub(r"\s*\n\s*", "", m3.group(1)).split(";") if x}
     if summary is not None:
         summary["facts_violating_table"] = sorted(unprot)
     for e in (".vo", ".glob", ".vok", ".vos"):
-        for b in ("specdump", "factsum", "unprot"):
+        for b in ("specdump", "factsum"):
             try:
                 os.remove(os.path.join(wd, b + e))
             except OSError:
